@@ -532,6 +532,7 @@ def run(ck):
                          # instructions only through `erase`, positions excepted
                          ["DSP.C14b.C14_run_erase", "DSP.C14b.C14_run_pre_to_empty"])
     ck.source_tie("parser")
+    ck.source_tie("include")
     ck.hygiene()
     ck.ocaml_build()
     ck.harness_build(["c14"])
